@@ -136,7 +136,7 @@ func (e *renv) phaseV1(r *Rng, s *sinks, d density, p, otherPath *ibctesting.Pat
 		if len(w) != 1 {
 			return
 		}
-		base = v1msg{pkt: k.pkt, ack: w[0], height: clienttypes.NewHeight(revB, last(cons))}
+		base = (v1msg{pkt: k.pkt, ack: w[0], height: clienttypes.NewHeight(revB, last(cons))}).clone()
 		x.reproof(&base, key, last(cons), true)
 		if other != nil {
 			if ow := e.wrote[wroteKeyV1(other.pkt.DestinationPort, other.pkt.DestinationChannel, other.pkt.Sequence)]; len(ow) == 1 {
@@ -315,7 +315,7 @@ func (e *renv) phaseV2(r *Rng, s *sinks, d density, k *sentV2, other *sentV2, is
 		if len(w) == 0 {
 			return
 		}
-		base = v2msg{pkt: k.pkt, acks: w, isAck: true}
+		base = (v2msg{pkt: k.pkt, acks: w, isAck: true}).clone() // never share the recorded ground truth
 		x.reproof(&base, key, last(cons), true)
 		if other != nil {
 			x.otherAcks = e.wrote[wroteKeyV2(other.pkt.DestinationClient, other.pkt.Sequence)]
